@@ -27,6 +27,8 @@ REQUIRED_THEOREMS = [
     "Acn.C13.advertised_accepted_cont", "Acn.C13.advertised_accepted_deadband",
     "Acn.C13.advertised_accepted_finite", "Acn.C13.reject_iff", "Acn.C13.plugin_occupied_refused",
     "Acn.C13.gen_tolerances", "Acn.C13.gen_type_tables",
+    # degenerate ranges: min_rate == max_rate, a switched-off station (max_rate = 0, finite list of zeros / empty)
+    "Acn.C13.valid_rate_point_range", "Acn.C13.normalize_zeros", "Acn.C13.valid_rate_zero_range",
     # the description read through the network / Interface, for networks of any size
     "Acn.C13.registered_ids_nodup", "Acn.C13.registered_last_wins", "Acn.C13.registered_consistent_iff",
     "Acn.C13.info_cache_eq", "Acn.C13.info_cache_unknown", "Acn.C13.info_cache_no_index_error",
@@ -58,7 +60,10 @@ ASSUMPTIONS = ["theorems are over an arbitrary linear ordered field; the impleme
                "freshly built factory network that never went through a save; that the factories build the documented "
                "sites is C16's"]
 RULE = ("per case a ChargingNetwork of 1-7 EVSEs (continuous / deadband / finite, parameters incl. unsorted, duplicated, "
-        "zero-free rate lists and infinite max; always a non-empty allowable interval) registered in an order that is not the sorted order of their ids; ~75% of "
+        "zero-free rate lists and infinite max; always a non-empty allowable interval; ~14% of the kinds are DEGENERATE but legal: max_rate = 0 as "
+        "int / 0.0 / numpy.float64 / numpy.int64 (a switched-off station, continuous or deadband with end 0), min_rate == max_rate, deadband "
+        "end == max_rate, finite lists [] / [0] / [0, 0.0]; ~45% of the finite kinds hand their rates over as another ITERABLE than a "
+        "list: generator expression / map / iter(list) (one-shot), tuple, set, numpy array, dict keys, range (ascending and descending)) registered in an order that is not the sorted order of their ids; ~75% of "
         "the cases hold several stations and most of those hold SIBLINGS: same class with equal min_rate/max_rate and a "
         "different allowable set (other deadband end, other intermediate finite steps), identical twins, another class with "
         "the same advertised pair, same set written differently; ~10% register an id twice (the later EVSE replaces the "
@@ -109,8 +114,55 @@ SITES = [("caltech_acn", {}), ("caltech_acn", {}), ("caltech_acn", {"voltage": 2
 
 # ------------------------------------------------------------------ generation
 
-def _gen_kind(rng):
+# the type of the `allowable_rates` ARGUMENT of FiniteRatesEVSE (documented: an iterable); "gen" / "map" / "iter" can be
+# walked only once
+AS_FORMS = ["gen", "map", "iter", "tuple", "set", "ndarray", "dictkeys", "gen", "iter"]
+RANGES = [[6 + i for i in range(27)], [0, 8, 16, 24, 32], [8, 16, 24, 32], [32, 24, 16, 8], [16, 12, 8], [6, 7, 8], [0], []]
+NUMS = [None, None, "float", "np", "npint"]
+
+
+def _with_form(rng, kind, p=0.45):
+    """a finite kind whose rates are handed over as something else than a list (same allowable set)"""
+    if kind["t"] == "finite" and "as" not in kind and rng.random() < p:
+        kind = dict(kind, **{"as": rng.choice(AS_FORMS)})
+    return kind
+
+
+def _gen_degenerate(rng):
+    """legal parameters at the rim: a switched-off station (max_rate = 0, whatever the numeric type of the zero; finite list
+    empty / of zeros only), min_rate == max_rate, deadband end == max_rate"""
     r = rng.random()
+    if r < 0.3:
+        k = {"t": "cont", "min": 0, "max": 0}
+    elif r < 0.42:
+        c = rng.choice([8, 6, 0.5, 32])
+        k = {"t": "cont", "min": c, "max": c}
+    elif r < 0.6:
+        k = {"t": "deadband", "db": 0, "max": 0}
+    elif r < 0.7:
+        c = rng.choice([6, 8, 5.5])
+        k = {"t": "deadband", "db": c, "max": c}
+    else:
+        k = {"t": "finite", "rates": rng.choice([[], [0], [0, 0.0], [0.0], [0, 0, 0]])}
+        if rng.random() < 0.6:
+            k["as"] = rng.choice(AS_FORMS + ["range"] if k["rates"] in ([], [0]) else AS_FORMS)
+        return k
+    how = rng.choice(NUMS)
+    if how:
+        k["num"] = how
+    return k
+
+
+def _gen_kind(rng):
+    if rng.random() < 0.14:
+        return _gen_degenerate(rng)
+    return _with_form(rng, _gen_kind0(rng))
+
+
+def _gen_kind0(rng):
+    r = rng.random()
+    if r < 0.05:
+        return {"t": "finite", "rates": list(rng.choice(RANGES)), "as": "range"}
     if r < 0.3:
         return {"t": "cont", "min": rng.choice([0, 0, 0, 6, 8, 0.5]), "max": rng.choice([16, 32, 80, "inf", 32.5])}
     if r < 0.55:
@@ -203,7 +255,9 @@ def _gen_sibling(rng, kind):
     for _ in range(6):
         k = _sibling(rng, kind)
         if _well_formed(k):
-            return k
+            if k.get("as") == "range" and k["rates"] not in RANGES:
+                k = {"t": "finite", "rates": k["rates"]}
+            return _with_form(rng, k, 0.35)
     return _gen_kind(rng)
 
 
@@ -555,6 +609,51 @@ def corpus():
          "ops": [{"op": "set_pilot", "p": "inf", "V": 208, "T": 5, "nu": 0, "at": "B"},
                  {"op": "set_pilot", "p": 16, "V": 240, "T": 5, "nu": 0, "at": "Z"},
                  {"op": "valid", "p": 7.9991, "atol": ATOL}]},
+        # switched-off stations (max_rate = 0 as int / float / numpy zero; deadband end 0; finite lists of zeros) next to
+        # a working one: the advertised maximum is 0 everywhere and nothing farther than 1e-3 from 0 is taken
+        {"kind": {"t": "cont", "min": 0, "max": 0},
+         "net": {"regs": [{"id": "Z", "kind": {"t": "deadband", "db": 0, "max": 0, "num": "float"}, "V": 240, "ph": 0},
+                          {"id": "S", "V": 208, "ph": 0},
+                          {"id": "B", "kind": {"t": "finite", "rates": [0, 0.0]}, "V": 208, "ph": 120},
+                          {"id": "10", "kind": {"t": "cont", "min": 0, "max": 0, "num": "np"}, "V": 208, "ph": -120},
+                          {"id": "a b", "kind": {"t": "finite", "rates": [], "as": "gen"}, "V": 208, "ph": -120},
+                          {"id": "9", "kind": {"t": "cont", "min": 0, "max": 32}, "V": 240, "ph": 0}],
+                 "cons": [{"op": "restore", "via": "str"}], "queries": ["10", "S", "B", "Z", "9", "a b"]},
+         "ops": [{"op": "set_pilot", "p": 16, "V": 208, "T": 5, "nu": 0},
+                 {"op": "set_pilot", "p": 0.0009, "V": 208, "T": 5, "nu": 0},
+                 {"op": "set_pilot", "p": 0.002, "V": 208, "T": 5, "nu": 0},
+                 {"op": "set_pilot", "p": 6, "V": 208, "T": 5, "nu": 0, "at": "Z"},
+                 {"op": "set_pilot", "p": "inf", "V": 208, "T": 5, "nu": 0, "at": "10"},
+                 {"op": "set_pilot", "p": 8, "V": 208, "T": 5, "nu": 0, "at": "B"},
+                 {"op": "set_pilot", "p": 8, "V": 208, "T": 5, "nu": 0, "at": "a b"},
+                 {"op": "restore", "via": "sim"},
+                 {"op": "set_pilot", "p": 32, "V": 208, "T": 5, "nu": 0, "at": "10"},
+                 {"op": "valid", "p": 0.0009765625, "atol": 0.0009765625},
+                 {"op": "valid", "p": 0.001953125, "atol": 0.0009765625}]},
+        # min_rate == max_rate, deadband end == max_rate
+        {"kind": {"t": "cont", "min": 8, "max": 8},
+         "net": {"regs": [{"id": "S", "V": 208, "ph": 0},
+                          {"id": "B", "kind": {"t": "deadband", "db": 6, "max": 6}, "V": 208, "ph": 0}],
+                 "cons": [], "queries": ["B", "S"]},
+         "ops": [{"op": "set_pilot", "p": 8.0009, "V": 208, "T": 5, "nu": 0},
+                 {"op": "set_pilot", "p": 7.998, "V": 208, "T": 5, "nu": 0},
+                 {"op": "set_pilot", "p": 0, "V": 208, "T": 5, "nu": 0},
+                 {"op": "set_pilot", "p": 0, "V": 208, "T": 5, "nu": 0, "at": "B"},
+                 {"op": "set_pilot", "p": 6.002, "V": 208, "T": 5, "nu": 0, "at": "B"},
+                 {"op": "set_pilot", "p": 5.9991, "V": 208, "T": 5, "nu": 0, "at": "B"}]},
+        # the same rate list handed over as every kind of iterable (one-shot ones among them), unsorted with duplicates
+        {"kind": {"t": "finite", "rates": [32, 8, 8, 16, 0], "as": "gen"},
+         "net": {"regs": [{"id": "S", "V": 208, "ph": 0}]
+                         + [{"id": sid, "kind": {"t": "finite", "rates": [32, 8, 8, 16, 0], "as": form}, "V": 208, "ph": 0}
+                            for sid, form in zip(IDS, ["map", "iter", "tuple", "set", "ndarray", "dictkeys", "list"])]
+                         + [{"id": "B", "kind": {"t": "finite", "rates": [32, 24, 16, 8], "as": "range"}, "V": 208, "ph": 0}],
+                 "cons": [], "queries": ["S", "B"] + IDS[:7]},
+         "ops": [{"op": "set_pilot", "p": 16, "V": 208, "T": 5, "nu": 0},
+                 {"op": "set_pilot", "p": 8, "V": 208, "T": 5, "nu": 0, "at": IDS[0]},
+                 {"op": "set_pilot", "p": 32, "V": 208, "T": 5, "nu": 0, "at": IDS[1]},
+                 {"op": "restore", "via": "str"},
+                 {"op": "set_pilot", "p": 24, "V": 208, "T": 5, "nu": 0, "at": "B"},
+                 {"op": "set_pilot", "p": 24, "V": 208, "T": 5, "nu": 0, "at": IDS[4]}]},
     ] + _site_corpus()
 
 
@@ -707,7 +806,7 @@ def _fresh_accepts(kind, v):
     take `v` through the public entry point"""
     key = (os.environ.get("ACN_REPO", ""), json.dumps(kind, sort_keys=True), repr(v))
     if key not in _FRESH:
-        fresh = I.make_evse(kind, "fresh")
+        fresh = I.make_evse_as(kind, "fresh")
         try:
             fresh.set_pilot(v, 208, 5)
             _FRESH[key] = bool(fresh.current_pilot == v)
@@ -766,7 +865,7 @@ def run_impl(case):
             if "restore" in r:
                 net, live = _restore(net, r["restore"])
             else:
-                evse = I.make_evse(r["kind"], r["id"])
+                evse = I.make_evse_as(r["kind"], r["id"])
                 if r.get("json"):
                     evse = type(evse).from_json(evse.to_json())
                 net.register_evse(evse, r["V"], r["ph"])
@@ -1247,6 +1346,19 @@ def features(case, obs):
     regs = _regs(case)
     kinds = _final_kinds(regs)
     out = ["kind:" + case["kind"]["t"], "net:stations=" + (str(len(kinds)) if len(kinds) < 8 else "8+")]
+    for dg_k in kinds.values():
+        dg_s = _spec_info(dg_k)
+        if dg_s["max"] == 0:
+            out.append("degenerate:max_rate_0:" + dg_k["t"])
+        elif dg_k["t"] != "finite" and dg_s["allowable"][0] == dg_s["allowable"][1]:
+            out.append("degenerate:min_eq_max:" + dg_k["t"])
+        if dg_k.get("num"):
+            out.append("bounds_as:" + dg_k["num"])
+        if dg_k["t"] == "finite":
+            out.append("rates_as:" + dg_k.get("as", "list"))
+            if dg_k.get("as") in ("gen", "map", "iter") and len(set(float(I.num(r)) for r in dg_k["rates"]) - {0.0}) > 0:
+                out.append("rates_as:one_shot_iterator_with_nonzero_levels")
+    out = out[:2] + sorted(set(out[2:]))
     if len(kinds) > 1:
         out += sorted(set("net:other_kind:" + k["t"] for s, k in kinds.items() if s != _primary(case)))
         if _shared_minmax(case):
